@@ -54,7 +54,7 @@ func askDriver(bin, line string) (string, error) {
 func reqField(reqs []reqSpec) string {
 	var l []string
 	for _, q := range reqs {
-		l = append(l, fmt.Sprintf("%c:%d:%c:%c", q.kind, q.id, q.ns, q.api))
+		l = append(l, q.field())
 	}
 	return common.Join(l, ",")
 }
